@@ -110,6 +110,29 @@ def _const_part(g, res, big=False):
                 res["nontrivial"] += int(np.any(div != 0))
                 if cmp_tol(got, div).any():
                     report(nm + "_of_constant", ax, idx, got, div, " (u=%+g)" % s)
+    # every combination of flow directions per axis (forward along one axis, backward or none along another)
+    absu = g.face_arrays(U.generic_face(g.mesh, tag=49))
+    for sg in U.axis_sign_patterns(g.d):
+        if len(set(sg)) < 2:
+            continue
+        arrs = [s_ * a for s_, a in zip(sg, absu)]
+        u = U.face_from_arrays(g.mesh, arrs)
+        div = np.asarray(pf.divergenceTerm(u), dtype=float)[rows]
+        for nm, T in (("central", pf.convectionTerm), ("upwind", pf.convectionUpwindTerm)):
+            got = (T(u) @ ones)[rows]
+            res["evals"] += 1
+            res["nontrivial"] += 1
+            if cmp_tol(got, div, rel=1e-11).any():
+                k = "C06:%s_of_constant:%s:axis_directions" % (nm, g.cls)
+                if k not in seen:
+                    seen.add(k)
+                    F.append({"key": k, "msg": "%s advection of the constant 1 on %s with flow directions %s per axis differs from divergenceTerm(u)" % (nm, U.spec_id(g.spec), list(sg)), "detail": {}})
+        rhs = np.asarray(pf.convectionTVDupwindRHSTerm(u, g.cell(np.ones(g.fshape)), pf.fluxLimiter("SUPERBEE")), dtype=float)
+        if not np.all(rhs == 0.0):
+            k = "C06:tvd_of_constant:%s:axis_directions" % g.cls
+            if k not in seen:
+                seen.add(k)
+                F.append({"key": k, "msg": "TVD correction of a constant on %s with flow directions %s per axis is not zero" % (U.spec_id(g.spec), list(sg)), "detail": {}})
     # generic velocity and every limiter: TVD correction of a constant vanishes; also c != 1
     for tag, signed in ((41, True), (43, False)):
         u = U.generic_face(g.mesh, tag=tag, signed=signed)
